@@ -85,7 +85,7 @@ class MagicNumberConfig:
             MagicNumberConfig instance with values from dictionary
         """
         # Get language-specific config if available
-        if language and language in config:
+        if language and isinstance(config.get(language), dict):
             lang_config = config[language]
             allowed_numbers = set(
                 lang_config.get(
